@@ -4,6 +4,7 @@ package rules
 
 import (
 	"fmt"
+	"go/constant"
 	"go/types"
 
 	"verifchk/core"
@@ -465,11 +466,10 @@ func (c *Ctx) checkOnlineDecrementMatchesIncrement() {
 		k, ok := v.(*ssa.Const)
 		return ok && k.Value != nil && k.Value.ExactString() == "1"
 	}
-	nDec, nInc := 0, 0
-	for _, fn := range c.P.ModFuncs {
-		if !core.InPkg(fn, "server") || !isPtrToNamedRecv(core.TopFunc(fn), "Topic") {
-			continue
-		}
+	// kind of a function as a counter helper: -1 a closure that lowers the counter by one itself
+	// (`oneSessionLess := func(user) {...; userData.online--; ...}`), 2 a function that adds a
+	// parameter to it (`t.addOnline(uid, delta)`)
+	directDec := func(fn *ssa.Function) (out []*ssa.Store, incs int) {
 		for _, st := range core.StoresToField(fn, onlineF) {
 			b, ok := core.Strip(st.Val).(*ssa.BinOp)
 			if !ok || !(isOne(b.Y) || isOne(b.X)) {
@@ -477,14 +477,70 @@ func (c *Ctx) checkOnlineDecrementMatchesIncrement() {
 			}
 			switch b.Op.String() {
 			case "+":
-				// the increment next to the attach is guarded by !background or lives in the promotion
-				// of a background session (decided by C10.3d/C10.3e); counted here as the reference
-				nInc++
-				continue
+				incs++
 			case "-":
-			default:
-				continue
+				out = append(out, st)
 			}
+		}
+		return
+	}
+	addsParam := func(g *ssa.Function) bool {
+		for _, st := range core.StoresToField(g, onlineF) {
+			if b, ok := core.Strip(st.Val).(*ssa.BinOp); ok && b.Op.String() == "+" {
+				if _, isP := core.Strip(b.Y).(*ssa.Parameter); isP {
+					return true
+				}
+				if _, isP := core.Strip(b.X).(*ssa.Parameter); isP {
+					return true
+				}
+			}
+		}
+		return false
+	}
+	nDecAll, nDec, nInc := 0, 0, 0
+	for _, fn := range c.P.ModFuncs {
+		if !core.InPkg(fn, "server") || !isPtrToNamedRecv(core.TopFunc(fn), "Topic") {
+			continue
+		}
+		var decs []ssa.Instruction
+		ds, incs := directDec(fn)
+		nInc += incs
+		nDecAll += len(ds)
+		if fn.Parent() == nil {
+			for _, st := range ds {
+				decs = append(decs, st)
+			}
+		} // a closure's own decrement is asked about where the closure is called (below)
+		core.AllInstrs(fn, func(in ssa.Instruction) {
+			call, ok := in.(*ssa.Call)
+			if !ok {
+				return
+			}
+			g := call.Call.StaticCallee()
+			if g == nil || g == fn || !core.InModule(g) || len(g.Blocks) == 0 {
+				return
+			}
+			if g.Parent() == fn {
+				if gd, _ := directDec(g); len(gd) > 0 {
+					decs = append(decs, call)
+				}
+				return
+			}
+			if !addsParam(g) {
+				return
+			}
+			for _, a := range call.Call.Args {
+				if k, ok := a.(*ssa.Const); ok && k.Value != nil && k.Value.Kind() == constant.Int {
+					if constant.Sign(k.Value) < 0 {
+						decs = append(decs, call)
+						nDecAll++
+					} else if constant.Sign(k.Value) > 0 {
+						nInc++
+					}
+				}
+			}
+		})
+		for _, st := range decs {
 			if h, _ := loopAround(fn, st.Block()); h != nil {
 				continue // one per user of a multiplexing (cluster) session: those are never in the background
 			}
@@ -502,7 +558,10 @@ func (c *Ctx) checkOnlineDecrementMatchesIncrement() {
 				"the online counter is lowered for a departing session without asking whether the session was counted: a background session (never counted by the increment side) that leaves takes one off the count of its user's foreground sessions - the others are told 'off' while the user is attached, and the counter goes negative afterwards")
 		}
 	}
-	r.Check(nDec >= 1 && nInc >= 1, rule, "single-session decrements of the online counter", "-", fmt.Sprintf("%d decrements outside loops, %d increments", nDec, nInc), "anchor lost: no decrement (or no increment) of perUserData.online found")
+	// the obligation exists only for decrements made outside a loop; a tree that lowers the counter
+	// only inside loops (one list of leaving users for both kinds of session) has nothing to ask
+	// here, which the count reports. The anchor is that the counter is lowered and raised at all.
+	r.Check(nDecAll >= 1 && nInc >= 1, rule, "decrements and increments of the online counter in Topic methods", "-", fmt.Sprintf("%d decrements (%d outside loops, each asked about), %d increments", nDecAll, nDec, nInc), "anchor lost: no decrement (or no increment) of perUserData.online found")
 }
 
 // checkContactOnlineOnlyWhenEnabled (C10): on a 'me' topic the record of a contact says "online"
@@ -517,28 +576,49 @@ func (c *Ctx) checkContactOnlineOnlyWhenEnabled() {
 	r.Explanation += " procPresReq records a reported online state for a contact only under perSubsData.enabled (C10.4e)."
 	onF := c.field("server", "perSubsData", "online")
 	enF := c.field("server", "perSubsData", "enabled")
-	fn := c.P.SSAFunc(c.method("server", "Topic", "procPresReq"))
-	if onF == nil || enF == nil || fn == nil {
-		c.lost("Topic.procPresReq")
+	if onF == nil || enF == nil {
 		return
 	}
-	r.Func(fk(fn))
+	// the reported state is the `*online` of the handler (a dereferenced *bool); the function that
+	// stores it may be procPresReq or a helper the body was moved into
+	reported := func(v ssa.Value) bool {
+		u, ok := core.Strip(v).(*ssa.UnOp)
+		if !ok || u.Op.String() != "*" {
+			return false
+		}
+		pt, ok := u.X.Type().Underlying().(*types.Pointer)
+		if !ok {
+			return false
+		}
+		b, ok := pt.Elem().Underlying().(*types.Basic)
+		if !ok || b.Kind() != types.Bool {
+			return false
+		}
+		_, isField := core.LoadedField(u)
+		return isField == nil
+	}
 	n := 0
-	for _, st := range core.StoresToField(fn, onF) {
-		if k, ok := core.Strip(st.Val).(*ssa.Const); ok && k.Value != nil && k.Value.ExactString() == "false" {
+	for _, fn := range c.P.ModFuncs {
+		if !core.InPkg(fn, "server") {
 			continue
 		}
-		n++
-		saved := core.NoLift
-		core.NoLift = true
-		okG, cnt := core.GuardedBy(fn, st, core.BoolGuard("psd.enabled", core.IsFieldLoad(enF), true))
-		core.NoLift = saved
-		construct := fk(fn) + ": a contact is recorded online only while its notifications are enabled"
-		if k := countSame(r, rule, construct); k > 0 {
-			construct = fmt.Sprintf("%s #%d", construct, k+1)
+		for _, st := range core.StoresToField(fn, onF) {
+			if !reported(st.Val) {
+				continue
+			}
+			n++
+			r.Func(fk(fn))
+			saved := core.NoLift
+			core.NoLift = true
+			okG, cnt := core.GuardedBy(fn, st, core.BoolGuard("psd.enabled", core.IsFieldLoad(enF), true))
+			core.NoLift = saved
+			construct := fk(fn) + ": a contact is recorded online only while its notifications are enabled"
+			if k := countSame(r, rule, construct); k > 0 {
+				construct = fmt.Sprintf("%s #%d", construct, k+1)
+			}
+			r.Check(okG && cnt[0] > 0, rule, construct, c.pos(st), "",
+				"the contact's record takes the reported online state although notifications from it are disabled: the contact is remembered as online while muted, and after the un-muting handshake the 'on' is dropped as 'no change' - the user never learns that the contact is online")
 		}
-		r.Check(okG && cnt[0] > 0, rule, construct, c.pos(st), "",
-			"the contact's record takes the reported online state although notifications from it are disabled: the contact is remembered as online while muted, and after the un-muting handshake the 'on' is dropped as 'no change' - the user never learns that the contact is online")
 	}
-	r.Check(n >= 1, rule, "stores of a reported state into perSubsData.online in procPresReq", "-", fmt.Sprintf("%d", n), "none: anchor lost")
+	r.Check(n >= 1, rule, "stores of a reported state (*online) into perSubsData.online", "-", fmt.Sprintf("%d", n), "none: anchor lost")
 }
